@@ -195,7 +195,7 @@ func VerifC08_Trees() {
 	var text string
 	tU := `"` + c + `"`
 	nullableRoot := false
-	switch zzverif.IntRange("shape", 0, 14) {
+	switch zzverif.IntRange("shape", 0, 16) {
 	case 0:
 		text = "{\n  \"a\": " + d + ", // {min: " + e + "}\n  \"b\": \"" + c + "\", // {optional: true}\n  \"c\": [" + d + ", \"" + c + "\"]\n}"
 	case 1:
@@ -213,6 +213,11 @@ func VerifC08_Trees() {
 	case 9:
 		text = `@t // {nullable: true}`
 		nullableRoot = true
+	case 15: // a type that refers to itself through a NULLABLE (but required) member
+		text = `{"x": @u}`
+		tU = "{\n  \"v\": " + d + ",\n  \"next\": @u // {nullable: true}\n}"
+	case 16: // const inside an `or` alternative (there is no example it could pin)
+		text = `"` + c + `" // {or: [{type: "string", const: ` + []string{"true", "false"}[zzverif.IntRange("const", 0, 1)] + `}, {type: "integer"}]}`
 	case 12: // two alternatives of the SAME type: both must survive in anyOf
 		text = d + ` // {or: [{type: "integer", max: ` + e + `}, {type: "integer", min: ` + e + `}]}`
 	case 13: // a null example under an `or` rule
@@ -254,6 +259,7 @@ func VerifC08_Trees() {
 	ts2 := jschema.New("@s2", `"zz"`)
 	_ = s.AddType("@s", ts)
 	_ = s.AddType("@s2", ts2)
+	_ = tu.AddType("@u", tu) // ... or to itself
 	_ = tu.AddType("@s", ts) // @u may itself refer to @s / @s2
 	_ = tu.AddType("@s2", ts2)
 	_ = s.AddType("@t", tt)
